@@ -96,7 +96,7 @@ func checkC11(w *World, r *Report) {
 				nW++
 				construct := "store aborted in " + fnShort(fn)
 				if bv, isC := constBool(st.Val); isC {
-					r.Check(bv && fn == abortClo, "C11.c", construct, w.instrPos(in), "aborted <- true in the Abort closure (guarded by C11.b)",
+					r.Check(bv && abortClo != nil && w.unit(abortClo)[fn], "C11.c", construct, w.instrPos(in), "aborted <- true in the Abort closure (guarded by C11.b)",
 						"aborted is set to a constant outside the Abort closure, or reset to false")
 					continue
 				}
@@ -107,7 +107,7 @@ func checkC11(w *World, r *Report) {
 						okExit = true
 					}
 				}
-				r.Check(okExit && fn == loop, "C11.c", construct, w.instrPos(in), "exit derives aborted <- !completed()",
+				r.Check(okExit && loop != nil && w.unit(loop)[fn], "C11.c", construct, w.instrPos(in), "exit derives aborted <- !completed()",
 					"aborted is assigned a value other than !completed() (a bar ended by cancellation must be aborted exactly when it is not completed), or outside the bar loop")
 			}
 		}
@@ -117,7 +117,7 @@ func checkC11(w *World, r *Report) {
 	// (d) exit arm: aborted computed, then state published, then bsOk closed, then wait group released, then return
 	if exitArm != nil {
 		bad := ""
-		n, over := w.enumPaths(loop, pathOpts{InlineDepth: 2, Start: exitArm, StopAt: func(b *ssa.BasicBlock) bool { return false }}, func(p *Path) {
+		n, over := w.enumPaths(loop, pathOpts{InlineDepth: 3, Inline: w.helperInline(loop), Start: exitArm, StopAt: func(b *ssa.BasicBlock) bool { return false }}, func(p *Path) {
 			if bad != "" {
 				return
 			}
@@ -139,7 +139,7 @@ func checkC11(w *World, r *Report) {
 					if op.Kind == "close" && op.Class.has("Bar.bsOk") {
 						iClose = ev.Idx
 					}
-					if op.Kind == "wg.Done" && op.Class.has("wg:Progress.bwg") && ev.F.Fn == loop {
+					if op.Kind == "wg.Done" && op.Class.has("wg:Progress.bwg") {
 						iDone = ev.Idx
 					}
 				}
